@@ -224,7 +224,7 @@ def setup(tier, seed):
     jobs = _jobs(tier)
     return {
         'jobs': jobs,
-        'budget_s': 900 if tier == 'quick' else 3300,
+        'budget_s': 780 if tier == 'quick' else 3300,
         'explanation': 'kernel: generate_candle_from_one_minutes/_get_generated_candles on symbolic windows against the statement\'s fold (first open, '
                        'last close, If-max high, If-min low, summed volume); sessions: a reading strategy copies, at every step and hook, get_candles for '
                        'every route timeframe and the stored 1m candles; z3 proves one row per started window and every row (complete or forming) '
